@@ -110,6 +110,39 @@ CHECKS["C02"] = dict(
     technique="Lean 4 proof of the column-resolution layer + differential correspondence of complete column path sets on Lean-rendered SQL",
 )
 
+CHECKS["C10"] = dict(
+    category="proof",
+    text="Lean theorems about the modelled core: holder operations are total up to one exactly characterised case "
+         "(addColumnLineage_internal_iff / cleanupItem_internal_iff: `None cannot be a node` iff a select item is wired to a "
+         "column without a unique owner; cleanupGroup_lineage_iff: SQLLineageException iff more than one write target; "
+         "cleanupItem_total_of_invariant under 'write columns have exactly one parent'); walk_total_partial: by mutual structural "
+         "induction over the whole extractor walk on the typed AST every error of Walk.analyze is unsupported / lineage / that "
+         "one internal case / the model's marker for UPDATE, MERGE, COPY; walk_total_nonquery; the assembler never fails on "
+         "table-level holders unless a statement carries >= 2 rename pairs (build_total_single_rename, "
+         "build_errors_only_multi_rename, D10 witness); unsupported_raises_or_skips; silent_skip_neutral: in silent mode a "
+         "statement of an unsupported type at any non-final position leaves the combined graph structurally identical (empty "
+         "holder neutral for the fold, registers no session metadata), at the final position the same error or combined graphs "
+         "with identical node/edge lists, tag reads and key objects, hence the same source/target/intermediate tables and "
+         "column lineage paths (silent_skip_neutral_last, via congruence of the tail of _build_digraph and of the role/path "
+         "functions under that equivalence). "
+         "PARTIAL: totality of sqlfluff / sqlparse / networkx themselves and of the statement kinds outside the typed AST is "
+         "outside any model; for arbitrary TEXT the check is a seeded SEARCH (not a proof): corpus harvested from the "
+         "repository's tests + tpcds under own and foreign dialects, token-level mutants, Lean-rendered generated statements "
+         "with a damaged token, hand-written special-case statements under every dialect, bracket nesting to 30, "
+         "metacharacter sweeps, each under silent in {False, True} with every accessor touched; oracle = class of the escaping "
+         "exception identified by call site, + sqlfluff's own verdict for 'unparsable => invalid syntax'; silent-mode scripts x "
+         "insertion position, implementation vs implementation and vs the model",
+    design_ref="DESIGN.md §5 C10, §6 D10 D13 D14 D15",
+    note=TB + ". partial: walk_total is proved up to the `None node` case (the invariant WriteColsOwned is not yet carried "
+         "through compose/addWriteColumns/expandWildcard). "
+         "The text-level quantifier is searched, not proved. Fixed by patches: D13, D14, D15. Known findings by call site / "
+         "class: D10-C10 (multi-pair RENAME), D26, D27 (exasol tree shapes), D28 (deprecated non-validating analyzer on text "
+         "that is not SQL), D29 (non-validating analyzer, multi-argument window function). A run exceeding the per-case time "
+         "limit is counted and listed, not a violation.",
+    technique="Lean 4 proof over the hand-written model (mutual structural induction over the walk; invariant over the statement "
+              "fold) + seeded fuzzing of the real LineageRunner on a 16-process pool with call-site classification and ddmin",
+)
+
 NOT_YET = "machinery not built yet (build phase in progress, see DESIGN.md §9)"
 
 
